@@ -425,7 +425,12 @@ func (s *HTTPService) ServeHTTP(w http.ResponseWriter, r *http.Request) {
 		return
 	}
 
-	switch DWIMURI(ctx, m["uri"].(string)) { // Sorry.
+	uri, isString := m["uri"].(string)
+	if !isString {
+		protest(ctx, fmt.Errorf("need a string uri, not a %T", m["uri"]), w)
+		return
+	}
+	switch DWIMURI(ctx, uri) {
 	case "/api/sys/admin/connstates":
 		counts := s.connStates.Get()
 		js, err := json.Marshal(&counts)
